@@ -18,6 +18,12 @@ HARNESS = [
      "quick": {"cases": 300, "len": 30, "shards": 8},
      "thorough": {"cases": 6000, "len": 40, "shards": 32},
      "search": {"cases": 1500, "len": 35}},
+    # handler / State level (monitor only): what Partition and Deadline cannot show, i.e. how the miner
+    # actor's handlers combine them (one message over several deadlines / partitions, State.early_terminations)
+    {"bin": "minerpower", "tag": "minerpower",
+     "quick": {"cases": 300, "len": 30, "shards": 1},
+     "thorough": {"cases": 3000, "len": 30, "shards": 1},
+     "search": {"cases": 900, "len": 30}},
 ]
 TRUSTED_BASE = TRUSTED_BASE_COMMON + [
     "C04 model coq/Model/Partition.v: hand-written transcription of actors/miner/src/{partition_state,expiration_queue,bitfield_queue,quantize}.rs (every Partition operation and the queue operations under it); power_for_sector is abstracted (a sector record carries the raw/QA power the real function returns, computed by the harness with the real code); loops are written as monadic folds (for_each / for_each_while); entries emptied during iter_while_mut are deleted at once instead of after the traversal and reschedule_all_as_faults writes mutated sets at once (same resulting queue and error class; validated by the correspondence check)",
@@ -26,6 +32,9 @@ TRUSTED_BASE = TRUSTED_BASE_COMMON + [
 TRUSTED_BASE += [
     "C04 model coq/Model/Deadline.v: hand-written transcription of actors/miner/src/deadline_state.rs (partitions array, deadline expiration queue, partitions_posted, early_terminations, sector counts, faulty/live power and daily-fee memos; add_sectors, record_proven_sectors, process_deadline_end, pop_expired_sectors, terminate_sectors, record_faults, declare_faults_recovered, compact_partitions, pop_early_terminations), of deadline_assignment.rs::assign_deadlines and State::allocate_sector_numbers; PoSt proof records / snapshots (dispute machinery) and reschedule_sector_expirations (dead code) are not modelled",
     "C04 harness/src/bin/deadline.rs: drives the real fil_actor_miner::Deadline, assign_deadlines and State::allocate_sector_numbers function by function; monitors = the repo's testing.rs check_deadline_state_invariants, an independent Rust DeadlineInv (+ DeadlineExpInv), allocation monotonicity",
+]
+TRUSTED_BASE += [
+    "C04 harness/src/bin/minerpower.rs (monitor only, shared with C02): real miner actor handlers on the harness VM; after every message and cron tick the repo's own miner::testing::check_state_invariants (partition bitfields, expiration queues of partitions AND deadlines, early-termination queues, memos) plus State.early_terminations == the deadlines with queued early terminations; scripted preludes: one TerminateSectors over two deadlines, one ExtendSectorExpiration2 over several partitions of one deadline (2KiB proofs: partitions of 2 sectors), TerminateSectors with addressed_sectors_max equal to the batch",
 ]
 ASSUMPTIONS = [
     "op_wf: the sector infos passed to add_sectors / replace_sectors have pairwise distinct numbers, non-negative power/pledge/fee, and replacement infos are numbered like the replaced sectors or fresh (what the miner actor guarantees: sector numbers are allocated once, replace_sectors is called with the same numbers); Partition itself does not check this, and the harness shows both model and code accept such calls and break the invariant",
